@@ -12,11 +12,15 @@ def check(rep):
     LR.rule_no_dead(ctx)
     LR.rule_tokens_have_rules(ctx)
     LR.rule_id_total(ctx)
+    from . import evalrules as ER
+    # a lexer kept between compilations stays in whatever state the previous text left it (e.g. inside a comment)
+    ER.rule_fresh_per_parse(ctx, rid="C07.FRESH-LEXER-PER-PARSE", kinds=("Lexer",))
     GR.rule_conflicts(ctx)
     GR.rule_precedence(ctx, rid="C07.PRECEDENCE-ASSOC")
     GR.rule_grammar_agrees(ctx, rid="C07.GRAMMAR-ACCEPTS", directions=("ref<=ext",))
-    PR.rule_compiles(ctx)
-    PR.rule_names_bound(ctx)
+    # the evaluator compiles the nested-helper layout (the exposed one is C14's)
+    PR.rule_compiles(ctx, layouts=(False,))
+    PR.rule_names_bound(ctx, layouts=(False,))
     PR.rule_generator_total(ctx)
     PR.rule_literal_terms(ctx, rid="C07.TERM-RENDER")
     PR.rule_ident_positions(ctx)
